@@ -193,10 +193,36 @@ def check_generated(ctx, case):
     tu = rng.choice(T_CHOICES)
     if tu:
         units['temperature'] = tu
-    how = rng.choice(['direct', 'loader'])
-    if how == 'direct':
-        o = observe(ThermochemGroup, g['H'], g['S'], dict(g['Cp']),
-                    g['T_ref'], tuple(g['range']) if g['range'] else None)
+    how = rng.choice(['direct', 'loader', 'direct numpy-typed',
+                      'direct int-typed', 'direct then update()'])
+    if how.startswith('direct'):
+        H, S, Cp, Tr, rg = g['H'], g['S'], dict(g['Cp']), g['T_ref'], \
+            (tuple(g['range']) if g['range'] else None)
+        if how == 'direct numpy-typed':
+            import numpy as np
+            f = np.float64
+            H = None if H is None else f(H)
+            S = None if S is None else f(S)
+            Cp = dict((f(t), f(v)) for t, v in Cp.items())
+            Tr = f(Tr)
+            rg = None if rg is None else (f(rg[0]), f(rg[1]))
+        elif how == 'direct int-typed':
+            # integral values handed over as Python ints
+            def i_(x):
+                return int(x) if x is not None and float(x) == int(x) and \
+                    abs(x) < 1e9 else x
+            H, S, Tr = i_(H), i_(S), i_(Tr)
+            Cp = dict((i_(t), i_(v)) for t, v in Cp.items())
+            rg = None if rg is None else (i_(rg[0]), i_(rg[1]))
+        if how == 'direct then update()':
+            # the references arrive through a merge into a Cp-only object
+            def build():
+                a = ThermochemGroup(None, None, Cp, Tr, rg)
+                a.update(ThermochemGroup(H, S, {}, Tr, rg))
+                return a
+            o = observe(build)
+        else:
+            o = observe(ThermochemGroup, H, S, Cp, Tr, rg)
     else:
         text = libfiles.render_library({'C(C)(H)3': g})
         with libfiles.TempTree() as tree:
